@@ -40,6 +40,7 @@ type spec struct {
 	VOff    int      `json:"voff,omitempty"`    // rotation of the value cycles
 	ArrLens []int    `json:"arrlens,omitempty"` // element counts of dynamic arrays, cycled over the logs
 	Null    *nullAns `json:"null,omitempty"`    // environment: during the FIRST step the node answers "result": null for these calls
+	Tup     []int    `json:"tup,omitempty"`     // [from, to): the (non-indexed) inputs from..to-1 are declared as the components of ONE tuple input
 }
 
 // nullAns describes a transient inconsistency of the source (a lagging backend behind one URL): during the
@@ -71,6 +72,9 @@ func (s spec) String() string {
 		sb.WriteString(")")
 	} else {
 		sb.WriteString("no event")
+	}
+	if len(s.Tup) == 2 {
+		fmt.Fprintf(&sb, " inputs %d..%d are the components of one tuple input", s.Tup[0], s.Tup[1]-1)
 	}
 	fmt.Fprintf(&sb, " fields=%v", s.Fields)
 	if s.Prefix != "" {
@@ -275,7 +279,11 @@ func mkLogNested(d *world.Decl, s spec, addr []byte, vals, flat []ref.Value) *si
 	return l
 }
 
-func mkChain(s spec, d *world.Decl) *simeth.Chain {
+func mkChain(s spec, d *world.Decl) *simeth.Chain { return mkChainT(s, d, false) }
+
+// mkChainT: with asTuple the logs carry the topic and the data of the event whose inputs s.Tup are wrapped in a tuple
+// (reference signature and reference encoder); everything else (values, positions, transactions) is the same.
+func mkChainT(s spec, d *world.Decl, asTuple bool) *simeth.Chain {
 	shape := shapes[s.Shape]
 	var specs []simeth.BlockSpec
 	n := 0  // running log number
@@ -345,7 +353,9 @@ func mkChain(s spec, d *world.Decl) *simeth.Chain {
 					vals, flat = append(vals, gen(len(dims)-1, "")), append(flat, leaves)
 				}
 				addr := simeth.Addr(fmt.Sprintf("%s/l%d/addr", seed, li))
-				if nested {
+				if asTuple {
+					ts.Logs = append(ts.Logs, mkLogTuple(d, s, addr, vals, flat))
+				} else if nested {
 					ts.Logs = append(ts.Logs, mkLogNested(d, s, addr, vals, flat))
 				} else {
 					ts.Logs = append(ts.Logs, d.MkLog(addr, vals...))
@@ -377,9 +387,13 @@ type prep struct {
 	conf  string
 	snap  *simpg.Snapshot
 	chain *simeth.Chain
-	batch int
-	plan  string   // the fetch plan shovel's planner derives for the requested names (key naming and evidence only)
-	names []string // requested names = declared fields + automatically required fields
+	// oracle: the chain the declared projection is computed from. It is p.chain except for tuple declarations, where it
+	// is the twin chain whose logs are the same values emitted by the FLAT event (world.Decl has no tuples): by the row
+	// rule a non-array tuple's components project exactly like the same inputs declared side by side.
+	oracle *simeth.Chain
+	batch  int
+	plan   string   // the fetch plan shovel's planner derives for the requested names (key naming and evidence only)
+	names  []string // requested names = declared fields + automatically required fields
 }
 
 var snapCache = map[string]*simpg.Snapshot{}
@@ -393,6 +407,12 @@ func prepare(s spec) (*prep, error) {
 	}
 	p := &prep{spec: s, decl: d, batch: batch}
 	p.conf = world.ConfJSON([]world.Source{{Name: "src1", ChainID: 7, URL: "http://node1", Batch: batch, Conc: 1}}, []*world.Decl{d})
+	if len(s.Tup) == 2 {
+		var err error
+		if p.conf, err = tupleConf(p.conf, s.Tup[0], s.Tup[1]); err != nil {
+			return nil, err
+		}
+	}
 	conf, err := world.ParseConf(p.conf)
 	if err != nil {
 		return nil, err
@@ -422,6 +442,10 @@ func prepare(s spec) (*prep, error) {
 		p.plan = glf.New(p.names, nil, nil).String()
 	}
 	p.chain = mkChain(s, d)
+	p.oracle = p.chain
+	if len(s.Tup) == 2 {
+		p.chain = mkChainT(s, d, true)
+	}
 	return p, nil
 }
 
@@ -658,7 +682,7 @@ func runOne(p *prep, ch *explore.Run, trace, judge bool) (out execOut) {
 				case "ok":
 					// per-step oracle: whatever a successful step wrote is the declared projection up to the new position
 					if judge && has && cur.Num <= head {
-						want := d.Expect(p.chain, "src1", 7, 1, cur.Num, nil)
+						want := d.Expect(p.oracle, "src1", 7, 1, cur.Num, nil)
 						if fs := compare(p, cols, w.PG.Dump("t1"), want, fetchMethods(w.Net.Exchanges())); len(fs) > 0 {
 							for _, f := range fs {
 								f.Detail = fmt.Sprintf("after step %d (position %d):\n%s", step+1, cur.Num, f.Detail)
@@ -746,7 +770,7 @@ func runOne(p *prep, ch *explore.Run, trace, judge bool) (out execOut) {
 		out.nrows = len(dump)
 		return out
 	}
-	want := d.Expect(p.chain, "src1", 7, 1, head, nil)
+	want := d.Expect(p.oracle, "src1", 7, 1, head, nil)
 	out.nrows, out.nwant = len(dump), len(want)
 	out.finds = compare(p, cols, dump, want, out.methods)
 	out.cells = len(want) * len(cols)
@@ -834,7 +858,7 @@ func emptyArrayLogs(p *prep) (map[string]bool, string) {
 		return nil, ""
 	}
 	ids := map[string]bool{}
-	for _, b := range p.chain.Blocks {
+	for _, b := range p.oracle.Blocks {
 		for _, t := range b.Txs {
 			for _, l := range t.Logs {
 				note, _ := l.Note.(*world.LogNote)
